@@ -1,8 +1,8 @@
 (* C28 driver.  case: "<mode> <mask> <delay> <prog>,..." (see harness/h_c28.cpp); impl result:
    "rets=.. stop=.. file=..".  The model is run under a schedule built (in Coq: sched_for) from what the file
-   determines: the order in which the producers' lines entered the queue, and - for the modes in which stop() is
-   called without waiting for the queue - how many lines the logger thread had written.  In mode c the modelled
-   logger thread drains the queue before stop() regardless of what the implementation did.
+   determines: the order in which the producers' lines entered the queue.  In every mode the modelled logger thread
+   writes everything it can reach before stop() returns, regardless of what the implementation did (with the
+   repaired loop nothing accepted before stop() may be missing).
    The oracle c28_ok is applied to the implementation's observables. *)
 let ztext (s : string) : z list = List.map z_of_int (bytes_of_string s)
 let string_of_ztext (t : z list) : string = string_of_bytes (List.map int_of_z t)
@@ -60,12 +60,11 @@ let order_of (f : string) (np : int) : nat list =
 
 let () = run_protocol (fun case impl ->
   match words case with
-  | [mode; mask; _delay; progs] ->
+  | [_mode; mask; _delay; progs] ->
     let m = z_of_string mask and ps = parse_progs progs in
     let f = (match field "file" impl with Some f -> f | None -> "-") in
     let order = order_of f (List.length ps) in
-    let k = if f = "-" then 0 else List.length (split_on ',' f) in
-    let o = run_case (mode = "c") (nat_of_int k) m order ps in
+    let o = run_case m order ps in
     let om = c28_ok m ps o in
     let oi = (match impl_obs impl with Some io -> c28_ok m ps io | None -> false) in
     (show_obs o, oi, om)
